@@ -44,18 +44,36 @@ CHECKS = {
  "C18": dict(cat="exploration", tech="exhaustive enumeration of the complete domain (all 2^32 divisors) against 128-bit division; no-op rule on decode/emit/execute",
    text="Every 32-bit divisor that is not zero or a power of two: randomx_reciprocal == randomx_reciprocal_fast == floor(2^(63+bitlen)/d) >= 2^63; the 33 no-op divisors on all 8 destination registers and all IMUL_RCP opcodes leave the interpreter's and the x86 emitter's last-writer table and all registers untouched, with 62 neighbours as negative control.",
    note="unsigned __int128 division of the host compiler is the reference.", ref="3/C18"),
+ "C03": dict(cat="model_checking", tech="explicit-state search over API histories executed on the real objects (fork-cloned states, canonical concrete digest, depth-aware visited table), environment answers of a harness allocator enumerated",
+   text="For each explored VM flag set and each allocator answer (address reuse policy x fill pattern of fresh memory) all histories of documented-contract operations up to the depth bound are executed on the real objects; every digest returned anywhere must equal the digest of a fresh cache + fresh VM; crashes are violations; a second search without state merging must agree; the same search runs under ASan.",
+   note="Two caches, one VM per flag set at a time, 2-4 keys and 2-3 inputs; histories longer than the depth bound are covered only through state merging; contract guards per DESIGN.md appendix B.", ref="3/C03"),
+ "C06": dict(cat="exploration", tech="bounded exhaustive enumeration of adversarial programs in an environment where every out-of-bounds access faults (electric-fence allocator, guard pages), with code-buffer integrity oracle",
+   text="Adversarial program families on x86 JIT and interpreter (fast/light, v1/v2, soft/hard AES) with every library buffer ending at a PROT_NONE page and code buffers bracketed by PROT_NONE pages; after every code generation the emitted program ends inside the program area and all earlier emitted code is byte-identical; worst-case code size per instruction word obtained by enumeration and a 384-slot program of it generated for every configuration; inputs of every length 0..300 ending at / starting after a guard page, output ending at one.",
+   note="4 KiB guard granularity on the low side of aligned buffers; wrong line inside the right buffer is C04's business.", ref="3/C06"),
+ "C07": dict(cat="model_checking", tech="exhaustive exploration of an abstract carry model of the branch arithmetic, every abstract state concretised and replayed on the real decoder/executor (conformance), plus structural enumeration of all short programs",
+   text="All 8.4M abstract states of three consecutive branch steps satisfy 'not taken three times in a row'; the real decoder (thorough: all 2^32 immediates x 16 shifts) and the x86 emitter satisfy the model's premises; concretised traces replayed on exe_CBRANCH; registers a word can modify are recorded as written; all programs up to length 5 over a structural alphabet satisfy the branch-body invariant on real decoded targets and an exhaustive adversary executes <= 3*|P| instructions.",
+   note="The 3*|P| bound at length 384 is inferred from the invariant on all short programs plus per-slot facts; not enumerated at length 384.", ref="3/C07"),
+ "C14": dict(cat="model_checking", tech="preemption-bounded exhaustive schedule exploration of real threads under a cooperative futex scheduler that is invisible to ThreadSanitizer; happens-before race detection on every explored execution",
+   text="For each scenario (pairs of create/hash/destroy over a shared cache or dataset for the 12 flag sets, init_dataset on disjoint blocks with both initialisers, own-object lifecycles) every schedule with at most 2 (thorough 3) preemptions at API/allocation/datasetInit points is executed on the implementation; results must equal the sequential execution and TSan must report nothing; a free-running pass is sampled and reported separately.",
+   note="JIT-emitted accesses are visible only through ranges declared at call boundaries; weak-memory reorderings not modelled; per-scenario schedule cap reported when hit.", ref="3/C14"),
+ "C15": dict(cat="fault_enumeration", tech="exhaustive enumeration of fault positions (every allocation request of every creating call, single and sticky) with interposed allocator accounting; lifecycle state search",
+   text="For 57 creating-call shapes every request index fails once (single and sticky) in a forked child: NULL result, accounting back to pre-call, epilogue hash correct; all ownership-respecting lifecycle histories to the depth bound with 'release everything in a clone == baseline' checked in every state; short munmap and foreign frees flagged.",
+   note="mprotect failure is not injected; all allocation paths are interposed by the harness allocator.", ref="3/C15"),
+ "C16": dict(cat="model_checking", tech="explicit-state search over API histories with a page-protection monitor on every mmap/mprotect request, cross-checked against /proc/self/maps",
+   text="Secure family (SECURE JIT sets and interpreter sets with the SECURE bit): no protection request carries WRITE and EXEC together; non-secure JIT family: none on cache-owned buffers; kernel view compared after every call; positive control shows the monitor sees RWX of a non-secure VM.",
+   note="Linux/x86-64 only.", ref="3/C16"),
+ "C17": dict(cat="exploration", tech="bounded exhaustive enumeration executed by two builds (default, portable) with line-by-line comparison of result streams",
+   text="The same enumerations (integer helpers on all boundary pairs and the limb lattice, program families on the interpreter, hashes/items/cache digests, FP-environment preservation) are run by an executable linked against the default build and one linked against the portable build; the streams must be identical and the portable build must preserve the caller's FP environment.",
+   note="Portable path as compiled by this host's g++ for x86-64.", ref="3/C17"),
+ "C19": dict(cat="translation_validation", tech="exhaustive enumeration of bounded program families; emitted AArch64 code executed by an instruction-subset emulator (bound to the ISA by self-tests and llvm-objdump) against the real interpreter",
+   text="The ARM64 back-end's C++ is compiled for the host unmodified, the static runtime cross-assembled, and the emitted code executed under an emulator that refuses any encoding outside the audited subset; every program of the W1/sequence/saturated/branch/count families, v1/v2, soft/hard AES, full/light, plus dataset items from the emitted SuperscalarHash code, must leave the same register file and scratchpad as the interpreter.",
+   note="CompiledVm glue for aarch64 replicated in the harness; emulator FP uses host IEEE arithmetic.", ref="3/C19"),
+ "C20": dict(cat="translation_validation", tech="exhaustive enumeration of bounded program families; emitted RV64GC code executed by an instruction-subset emulator (bound to the ISA by self-tests and llvm-objdump) against the real interpreter",
+   text="Same construction for the scalar RISC-V back-end: host-compiled emitter, cross-assembled runtime, subset emulator with whitelisted memory; program families, branch-distance and literal-pool threshold programs, v1/v2, full/light and emitted dataset-init code must agree with the interpreter.",
+   note="Vector (RVV) back-end out of scope; CompiledVm glue replicated in the harness.", ref="3/C20"),
 }
 
 PENDING = {
- "C03": "history explorer (E-hist with harness allocator) not built yet",
- "C06": "guard-page / code-buffer checks not built yet",
- "C07": "branch-arithmetic model and structural enumeration not built yet",
- "C14": "schedule explorer + TSan harness not built yet",
- "C15": "fault-position enumeration not built yet",
- "C16": "page-protection monitor not built yet",
- "C17": "portable-build stream comparison not built yet",
- "C19": "ARM64 instruction-subset emulator still under construction",
- "C20": "RV64 instruction-subset emulator still under construction",
 }
 
 def main():
@@ -68,6 +86,10 @@ def main():
                    "baseline_off_cmd": "bin/baseline_off", "source_commits": hook_commits(), "add_only": True},
          "engines": [
             {"name": "vcheck", "path": "bin/vcheck", "serves_properties": sorted(checks), "kind_free_text": "driver: rebuilds /repo's working tree into build/<variant>, runs the check's parts, merges evidence"},
+            {"name": "envalloc+explore", "path": "src/common/envalloc.hpp", "serves_properties": ["C03", "C06", "C15", "C16"], "kind_free_text": "harness-owned allocator / mmap / mprotect (deterministic, enumerated answers, accounting, protection map, electric-fence mode) and fork-cloning explicit-state explorer over API histories"},
+            {"name": "sched", "path": "src/common/sched.c", "serves_properties": ["C14", "C08"], "kind_free_text": "cooperative futex scheduler hidden from TSan + iterative-context-bounding explorer"},
+            {"name": "a64emu", "path": "src/emu/a64", "serves_properties": ["C19"], "kind_free_text": "AArch64 instruction-subset emulator, host build of the ARM64 JIT"},
+            {"name": "rv64emu", "path": "src/emu/rv64", "serves_properties": ["C20"], "kind_free_text": "RV64GC instruction-subset emulator, host build of the RISC-V JIT"},
             {"name": "specmodel", "path": "src/specmodel", "serves_properties": ["C01", "C02", "C05", "C08", "C09", "C10", "C11", "C12"], "kind_free_text": "independent executable reading of doc/specs.md + RFC 7693 / FIPS-197 / RFC 9106 (reference model, never includes /repo headers)"},
          ],
          "checks": [], "not_applicable": [],
